@@ -10,6 +10,9 @@
 (*   e1 e2 (e2 has the same variants as e1)                                 *)
 (* Positions: ann (x : B = a)  arg (f(a), f :: (p: B))  ret (-> B { a })    *)
 (*   asg (b = a, b : B)  op (a + b, b : B; integers only)                   *)
+(*   flowl (x : B = 1 + a)  flowr (x : B = a + 1)  flowi (x : B = i + a,    *)
+(*   i : i32): the result of an operation on a distinct value is still of   *)
+(*   the distinct type, whichever side it stands on                         *)
 (* Rule: accepted iff A = B, or A is a variant of the enum B, or A is an    *)
 (* untyped literal and B is an integer type or a distinct of one.  In       *)
 (* particular never for a different nominal type, nor for A's own           *)
@@ -22,10 +25,12 @@ VARIABLES c, k
 vars == <<c, k>>
 Srcs == {"d1", "d2", "dd", "s1", "va", "vb", "i32", "lit"}
 Dsts == {"d1", "d2", "dd", "s1", "s2", "i32", "e1", "e2"}
-Poss == {"ann", "arg", "ret", "asg", "op"}
+Poss == {"ann", "arg", "ret", "asg", "op", "flowl", "flowr", "flowi"}
+Flow(p) == p \in {"flowl", "flowr", "flowi"}
 IntLike(t) == t \in {"d1", "d2", "dd", "i32"}
 Cases == {[a |-> a, b |-> b, pos |-> p] : a \in Srcs, b \in Dsts, p \in Poss}
-Wellformed(x) == x.pos = "op" => (IntLike(x.b) /\ (IntLike(x.a) \/ x.a = "lit"))
+Wellformed(x) == /\ x.pos = "op" => (IntLike(x.b) /\ (IntLike(x.a) \/ x.a = "lit"))
+                 /\ Flow(x.pos) => (x.a \in {"d1", "dd"} /\ IntLike(x.b))
 Accept(x) == \/ x.a = x.b
              \/ (x.a \in {"va", "vb"} /\ x.b = "e1")
              \/ (x.a = "lit" /\ IntLike(x.b))
@@ -38,6 +43,9 @@ NominalLaw == (c.a \in {"d1", "d2", "dd", "s1", "va", "vb"} /\ c.a # c.b /\ ~(c.
                   => ~Accept(c)
 (* the property constrains NOMINAL sources (and the untyped literal); whether a plain i32 value is
    accepted where a distinct of i32 is expected is not stated by it (the language accepts it) *)
-Judged(x) == ~(x.a = "i32" /\ x.b \in {"d1", "d2", "dd"})
+Judged(x) == /\ ~(x.a = "i32" /\ x.b \in {"d1", "d2", "dd"})
+             \* whether a strong i32 and a distinct of i32 may be operands of one operation at all is
+             \* not stated; but its result is never accepted as another type than the distinct
+             /\ ~(x.pos = "flowi" /\ x.a = x.b)
 Emitted == k = 1 => PrintT("CASE " \o ToJson([c |-> c, accept |-> Accept(c), judged |-> Judged(c)]))
 ================================================================================
